@@ -48,6 +48,8 @@ def impl(line):
         return tf(a == b) if op == 'ceq' else tf(hash(a) == hash(b))
     if op == 'iso':
         return impl_iso(args)
+    if op == 'after':
+        return impl_after(args)
     a, b = _pair(args)
     if op == 'eq':
         return tf(a == b)
@@ -97,6 +99,92 @@ def impl_iso(args):
             f'{og.show_fields(tgt, pristine)} # {og.show_fields(other, pristine)}')
 
 
+def impl_after(args):
+    """observe - mutate in place - observe again, on ONE object; then compare it with a freshly built shape"""
+    parts = og.split_semis(args)
+    op, steps = parts[0][0], parts[0][1:]
+    da, _ = og.p_any(parts[1])
+    db, _ = og.p_any(parts[2])
+    a = og.build(da)
+    keep = []
+    for st in steps:
+        try:
+            if st == 'hash':
+                keep.append(hash(a))
+            elif st == 'set':
+                keep.append(({a}, {a: 1}))
+            elif st == 'copy':
+                a = a.copy()
+            elif st == 'pickle':
+                a = og.roundtrip(a)
+            elif st[0] == 'm' and '/' in st:
+                i, m = st[1:].split('/')
+                og.apply_mut(a.geoshapes[int(i)], m, True)
+            else:
+                og.apply_mut(a, st, True)
+        except common.ImplTimeout:
+            raise
+        except Exception:  # noqa  -- a failing call leaves the object as it was
+            pass
+    b = og.build(db)
+    if op == 'eq':
+        return tf(a == b)
+    if op == 'req':
+        return tf(b == a)
+    if op == 'hasheq':
+        return tf(hash(a) == hash(b))
+    if op == 'setlen':
+        return str(len({a, b}))
+    if op == 'dictget':
+        return tf(b in {a: 1})
+    if op == 'rdictget':
+        return tf(a in {b: 1})
+    raise ValueError('unknown op ' + op)
+
+
+def dt_after(dt, m):
+    """value-level meaning of a time mutator token (a failing call changes nothing)"""
+    p = m.split(':')
+    if p[0] == 'setdt':
+        return None if p[1] == '_' else (og.ival(p[1]), og.ival(p[2]))
+    if p[0] == 'setdtd':
+        return (og.ival(p[1]), og.ival(p[1]))
+    if p[0] == 'strip':
+        return None
+    if p[0] == 'buffer':
+        d = int(p[1])
+        v = og.inst(dt)
+        if v is None or v[1] + d < v[0] - d:
+            return dt
+        return (v[0] - d, v[1] + d)
+    return dt
+
+
+def _top_dt(d):
+    return d[2] if d[0] == 'P' else d[1]
+
+
+def _set_top_dt(d, dt):
+    if d[0] in ('MP', 'ML', 'MG'):
+        return (d[0], dt, d[2])
+    return og.with_dt(d, dt)
+
+
+def desc_after(d, steps):
+    """the description of the shape the steps leave behind"""
+    for st in steps:
+        if st in ('hash', 'set', 'copy', 'pickle'):
+            continue
+        if st[0] == 'm' and '/' in st:
+            i, m = st[1:].split('/')
+            ms = list(d[2])
+            ms[int(i)] = _set_top_dt(ms[int(i)], dt_after(_top_dt(ms[int(i)]), m))
+            d = (d[0], d[1], ms)
+        else:
+            d = _set_top_dt(d, dt_after(_top_dt(d), st))
+    return d
+
+
 # ---- the property, independently of the model --------------------------------------------------------
 
 def spec(line):
@@ -114,12 +202,19 @@ def spec(line):
         how, side, kind, variant, dt, props, nh, nseq = parts[0]
         holes = '[' + ';'.join(str(i) for i in range(int(nh))) + ']' if kind in og.HAS_HOLES else '_'
         seq = '[' + ';'.join(str(i) for i in range(_nseq_eff(kind, int(nseq)))) + ']' if kind in og.HAS_SEQ else '_'
-        return f'dt={dt};props={props};holes={holes};seq={seq}'
+        return f'dt={og.dttok(og.inst(og.p_dt(dt)))};props={props};holes={holes};seq={seq}'
     parts = og.split_semis(args)
     try:
         aux = og.Aux()
-        a, _ = og.p_any(parts[0], aux)
-        b, _ = og.p_any(parts[1], aux)
+        if op == 'after':
+            op, steps = parts[0][0], parts[0][1:]
+            op = {'req': 'eq', 'rdictget': 'dictget'}.get(op, op)
+            a, _ = og.p_any(parts[1], aux)
+            b, _ = og.p_any(parts[2], aux)
+            a = desc_after(a, steps)
+        else:
+            a, _ = og.p_any(parts[0], aux)
+            b, _ = og.p_any(parts[1], aux)
     except Exception:  # noqa
         return None
     for d in (a, b):
@@ -226,6 +321,17 @@ HPZ5 = ('P', 0, None, [C(1, 2), C(1, 1, 5.0), C(2, 1, 5.0), C(2, 2, 5.0)], [])
 BIG = [C(0, 0), C(8, 0), C(8, 8), C(0, 8)]
 
 
+def respell_desc(d, k):
+    """the same shape with every time bound (own, members', holes') written in other UTC offsets / naive"""
+    kind = d[0]
+    if kind in ('MP', 'ML', 'MG'):
+        return (kind, og.respell(d[1], k), [respell_desc(m, k + 1 + i) for i, m in enumerate(d[2])])
+    if kind in ('L', 'T'):
+        return og.with_dt(d, og.respell(d[1], k))
+    hs = [respell_desc(h, k + 2 + i) for i, h in enumerate(og.holes_of(d))]
+    return og.with_holes(og.with_dt(d, og.respell(_top_dt(d), k)), hs)
+
+
 def base_shapes():
     """one representative per kind, with the list of (field name, variant differing in that field only)"""
     dt = DTS[2]
@@ -315,6 +421,10 @@ def gen_fields():
     lines = []
     for _kind, base, variants in base_shapes():
         lines += pair_lines(base, base)
+        # the same time bounds spelled naive / in other UTC offsets: one value (eq, hash, sets, dicts)
+        for k in range(1, len(og.SPELLINGS)):
+            lines += pair_lines(respell_desc(base, k), base, ['eq', 'hasheq', 'setlen', 'dictget'])
+            lines += pair_lines(base, respell_desc(base, k + 1), ['eq', 'hasheq'])
         for _name, v in variants:
             lines += pair_lines(base, v) + pair_lines(v, base)
         for (_n1, v1), (_n2, v2) in itertools.combinations(variants, 2):
@@ -439,6 +549,9 @@ def gen_multi(run):
                     perms = perms[::3]
                 for p in perms:
                     lines += pair_lines((kind, dt, [ms[i] for i in p]), base)
+                    if n >= 3 and sum(p) % 2 == 0:
+                        lines += pair_lines((kind, og.respell(dt, n + p[0]), [respell_desc(ms[i], i + p[0]) for i in p]), base,
+                                            ['eq', 'hasheq', 'setlen'])
                     if rw is not None and n:
                         lines += pair_lines((kind, dt, [rw[i] for i in p]), base, ['eq', 'hasheq', 'setlen'])
                 if n:
@@ -480,7 +593,7 @@ def gen_random(run, n):
         return C(rng.choice(grid), rng.choice(grid), z, m)
 
     def rdt():
-        return rng.choice(DTS)
+        return og.respell(rng.choice(DTS), rng.choice([0, 0, 0, 1, 2, 3, 4, 5, 6]))
 
     def ring(k):
         # a star-shaped simple ring around (2, 2) on the grid: sort random grid points by angle
@@ -535,12 +648,12 @@ def gen_random(run, n):
             o = o[r:] + o[:r]
             hs = [rewrite(h, True) if h[0] == 'P' else h for h in d[4]]
             rng.shuffle(hs)
-            return ('P', 0 if hole else rng.choice([0, 1]), d[2], o + [o[0]] if rng.random() < 0.6 else o, hs)
+            return ('P', 0 if hole else rng.choice([0, 1]), og.respell(d[2], rng.randrange(7)), o + [o[0]] if rng.random() < 0.6 else o, hs)
         if k in ('MP', 'ML', 'MG'):
             ms = [rewrite(m) for m in d[2]]
             rng.shuffle(ms)
-            return (k, d[1], ms)
-        return d
+            return (k, og.respell(d[1], rng.randrange(7)), ms)
+        return og.with_dt(d, og.respell(_top_dt(d), rng.randrange(7)))
 
     def perturb(d):
         """differs in exactly one defining field"""
@@ -548,8 +661,8 @@ def gen_random(run, n):
         what = rng.choice(['dt', 'geom', 'holes'])
         if what == 'dt' or k in ():
             cur = d[2] if k == 'P' else d[1]
-            return og.with_dt(d, rng.choice([x for x in DTS if x != cur])) if k not in ('MP', 'ML', 'MG') else \
-                (k, rng.choice([x for x in DTS if x != d[1]]), d[2])
+            return og.with_dt(d, rng.choice([x for x in DTS if og.inst(x) != og.inst(cur)])) if k not in ('MP', 'ML', 'MG') else \
+                (k, rng.choice([x for x in DTS if og.inst(x) != og.inst(d[1])]), d[2])
         if what == 'holes' and k in ('P', 'B', 'C', 'E', 'R'):
             hs = og.holes_of(d)
             return og.with_holes(d, hs[:-1] if hs and rng.random() < 0.5 else hs + [('P', 0, None, [C(6.5, 0.5), C(7.5, 0.5), C(7, 1.5)], [])])
@@ -604,7 +717,8 @@ def gen_random(run, n):
     return lines
 
 
-MUTS = ['setdt:_', f'setdt:{T0}:{T0}', f'setdt:{T0 + 7}:{T0 + 7}', f'setdt:{T0 + 5}:{T0 + 9_000_000}', 'buffer:1000000',
+MUTS = ['setdt:_', f'setdt:{T0}:{T0}', f'setdtd:{T0 + 7}', f'setdtd:{T0 + 7}@n', f'setdtd:{T0 + 9}@o-330',
+        f'setdt:{T0 + 5}@o120:{T0 + 9_000_000}@n', f'setdt:{T0 + 5}:{T0 + 9_000_000}', 'buffer:1000000',
         'buffer:-9000000000', 'strip', 'setprop:k=5', 'setprop:n=7', 'setprop:l=[4;5]', 'setprop:k=[]', 'hpop',
         'hpush:3', 'hpush:4', 'ddel:k', 'ddel:zz', 'npush:l=9', 'npush:k=1', 'npush:zz=1']
 
@@ -619,7 +733,7 @@ def gen_iso(run):
         for how in ('copy', 'pickle'):
             for side in ('c', 'o'):
                 for nh in nh_opts:
-                    for dt in ('_', f'{T0}:{T0 + 60_000_000}'):
+                    for dt in ('_', f'{T0}:{T0 + 60_000_000}' if side == 'c' else f'{T0}@o345:{T0 + 60_000_000}@n'):
                         variant = 1 if kind == 'ring' and nh == 0 else 0
                         head = f'ob.iso {how} {side} {kind} {variant} {dt} k=1,l=[1;2] {nh} {nseq}'
                         lines.append(head)
@@ -631,6 +745,62 @@ def gen_iso(run):
                             ms = [rng.choice(MUTS) for _ in range(rng.choice([2, 3, 5, 8]))]
                             p = rng.choice(props_pool)
                             lines.append(f'ob.iso {how} {side} {kind} {variant} {dt} {p} {nh} {nseq} ; ' + ' ; '.join(ms))
+    return lines
+
+
+TIME_MUTS = ['setdt:_', f'setdt:{T0 + 5}@o120:{T0 + 9_000_000}@n', f'setdtd:{T0 + 7}@o-330', f'setdtd:{T0 + 7}', 'strip',
+             'buffer:1000000', 'buffer:-9000000000', 'setprop:k=5']
+_TOK = {}
+
+
+def toks(d):
+    k = repr(d)
+    if k not in _TOK:
+        _TOK[k] = ' '.join(og.tokens(d))
+    return _TOK[k]
+
+
+def gen_after(run):
+    """observe - mutate IN PLACE - observe again on one object: its hash is taken / it sits in a set or dict / it was
+    cloned after being hashed, then its (or a member's) time bounds change in place; afterwards it must still be one value
+    with a freshly built shape having the new bounds (==, hash, set, dict in both roles) and differ from the old one"""
+    rng = run.rng
+    lines = []
+
+    def emit(base, steps, n):
+        after = desc_after(base, steps)
+        st = ' '.join(steps)
+        for b, ops in ((respell_desc(after, 1 + n % 6), ['hasheq', 'setlen', 'rdictget', ('dictget', 'req')[n % 2]]),
+                       (base, ['eq', 'hasheq'])):
+            for op in ops:
+                lines.append(f'ob.after {op} {st} ; {toks(base)} ; {toks(b)}')
+    n = 0
+    bases = [b for _k, b, _v in base_shapes()]
+    for base in bases:
+        for pre in (['hash'], ['set'], ['hash', 'copy'], ['hash', 'pickle'], []):
+            for m in TIME_MUTS:
+                for post in ([], ['copy'], ['pickle'], ['hash', 'strip', f'setdtd:{T0 + 7}@n']):
+                    n += 1
+                    if run.quick and n % 4:
+                        continue
+                    emit(base, pre + [m] + post, n)
+        if base[0] in ('MP', 'ML', 'MG'):
+            # a member's bounds change in place after the multi-shape (hence every member) was hashed
+            for pre in (['hash'], ['set'], ['hash', 'pickle'], []):
+                for m in TIME_MUTS[:6]:
+                    for i in (0, len(base[2]) - 1):
+                        for post in ([], ['copy']):
+                            n += 1
+                            emit(base, pre + [f'm{i}/{m}'] + post, n)
+    # random step sequences on random bases
+    pool = ['hash', 'set', 'copy', 'pickle'] + TIME_MUTS
+    for _ in range(run.scale(300, 6000)):
+        base = rng.choice(bases)
+        steps = [rng.choice(pool) for _ in range(rng.randrange(2, 7))]
+        if base[0] in ('MP', 'ML', 'MG') and rng.random() < 0.5:
+            steps.insert(rng.randrange(len(steps) + 1), f'm{rng.randrange(len(base[2]))}/{rng.choice(TIME_MUTS[:6])}')
+        n += 1
+        emit(base, steps, n)
     return lines
 
 
@@ -672,6 +842,9 @@ def check(run):
     run.run_cases('random-pairs', [ln for _t, ln in rnd], impl, spec,
                   tag=lambda ln, a: ['random:' + tags.get(ln, '?'), f'{ln.split(" ", 1)[0].split(".")[1]}:{a}'])
 
+    run.run_cases('observe-mutate-observe', gen_after(run), impl, spec,
+                  tag=lambda ln, a: ['after:' + ln.split()[1] + ':' + a] + ['step:' + t.split(':')[0].split('/')[-1] for t in ln.split(' ; ')[0].split()[2:]])
+
     iso = gen_iso(run)
     out = run.run_cases('copy-pickle-isolation', iso, impl, None,
                         tag=lambda ln, a: ['iso:' + ':'.join(ln.split()[1:4]), 'share:' + (a.split('share=')[1][:5] if 'share=' in a else a)])
@@ -693,7 +866,9 @@ def check(run):
              '12 outlines (<= 6 vertices) and of 3 hole rings, hole lists of mixed kinds, all member permutations (<= 4) of '
              'the three multi kinds incl. rewritten polygon members and cross-kind pairs, a coordinate grid with Z/M; x the '
              'observations ==, !=, hash equality, len({a,b}), dict look-up.  Seeded random pairs (rewrite / one-field '
-             'perturbation / independent).  copy()/pickle x every kind x every mutator alone and random mutator sequences '
+             'perturbation / independent).  Every time bound also written naive / in other UTC offsets (one value).  Observe-mutate-observe: '
+             'every kind x {hashed, in a set, hashed then cloned} x every in-place time mutator (also on a member) x {then cloned}, compared '
+             'with a freshly built shape.  copy()/pickle x every kind x every mutator alone and random mutator sequences '
              'on either side, observing the other side.  A case is one protocol line; non-trivial = all; distinct by line.',
         assumptions=['floats are exact rationals in the model: no NaN (x == x), coordinates of the exhaustive streams on a dyadic grid '
                      'so that the orientation test of GeoPolygon.__init__ is exact',
